@@ -41,6 +41,20 @@ func classes(tier string) []primeClass {
 			return r
 		}},
 	}
+	if tier == "thorough" {
+		// more sizes between the anchors (every limb/shift boundary of the 128-bit reductions sits at a different
+		// position of the operand for each size), and the second prime on each side of the word edge
+		cs = append(cs, primeClass{"sizes", func(m uint64) []uint64 {
+			var r []uint64
+			for _, b := range []uint{20, 26, 36, 40, 45, 50, 58, 59} {
+				r = append(r, ref.PrimesNear(1<<b, m, 1, true)...)
+			}
+			r = append(r, ref.PrimesNear(1<<32, m, 2, true)[1:]...)
+			r = append(r, ref.PrimesNear(1<<32, m, 2, false)[1:]...)
+			r = append(r, ref.PrimesNear(1<<61, m, 2, true)[1:]...)
+			return r
+		}})
+	}
 	return cs
 }
 
